@@ -314,6 +314,12 @@ def observe(case, kwargs, env, rq):
         vw, sw = embed_lp.optimum(opw)
         vo, so = embed_lp.optimum(opo)
         o.update(v_with=vw, s_with=sw, v_without=vo, s_without=so)
+        info = rq.get('info', {})
+        ren = _order_rename(None, {'first': 0, 'middle': 1, 'last': 2}[kw['pos']]) if kind == 'order' else None
+        if str(info.get('emb', '')).endswith('with2without'):
+            o['nums'] = embed_lp.replay_keys(opw, opo, env, 'x', rename_Q=ren)
+        elif str(info.get('emb', '')).endswith('without2with'):
+            o['nums'] = embed_lp.replay_keys(opo, opw, env, 'y', rename_P=ren)
         # reported dispatch at the real optima of both
         rw = opw.optimize(); ro = opo.optimize()
         if not isinstance(rw, str) and not isinstance(ro, str):
@@ -341,6 +347,9 @@ def judge(case, kwargs, cand, ans):
     bad, text = embed_lp.judge_values(o.get('v_with'), o.get('s_with'), o.get('v_without'), o.get('s_without'), '==', what=('with', 'without'))
     if bad:
         return True, text
+    if 'nums' in o and 'label' in info:
+        what = ('with', 'without') if str(info.get('emb', '')).endswith('with2without') else ('without', 'with')
+        return embed_lp.judge_numbers(o['nums'], info.get('label'), '==', what=what)
     if k == 'dispatch0':
         v = o['out']['dispatch'][info['col']][info['t']]
         return abs(v or 0.0) > 1e-9, 'outside element reports dispatch %.6g (%s step %d)' % (v or 0.0, info['col'], info['t'])
